@@ -365,7 +365,7 @@ func runC18(r *Run) {
 		case 1:
 			return kWithStr{ID: i, Name: heapStr[len(heapStr):]}
 		case 2:
-			_, after, _ := strings.Cut(string([]byte("id="+strconv.Itoa(i)))[:3], "=")
+			_, after, _ := strings.Cut(string([]byte("id=" + strconv.Itoa(i)))[:3], "=")
 			return kWithStr{ID: i, Name: after}
 		}
 		return kWithStr{ID: i, Name: strings.TrimSpace(string([]byte("  ")))}
@@ -413,7 +413,7 @@ func c18Concurrent(r *Run, kind string, rounds int) {
 	mk := func(i int) kWithStr { return kWithStr{ID: i, Name: string([]byte("c" + strconv.Itoa(i)))} }
 	cs := c18Case{Type: "struct{int;string} + StringKey id%4, colliding keys requested concurrently (" + kind + ")", StringKey: "id%4", N: rounds * G, Toolchain: runtime.Version()}
 	var loads atomic.Int64
-	b := theine.NewBuilder[kWithStr, int64](int64(rounds*G*2)).StringKey(strKey)
+	b := theine.NewBuilder[kWithStr, int64](int64(rounds * G * 2)).StringKey(strKey)
 	loader := func(ctx context.Context, k kWithStr) (theine.Loaded[int64], error) {
 		loads.Add(1)
 		time.Sleep(300 * time.Microsecond) // a load takes a moment, so that the other Gets of the round arrive while it is in flight
